@@ -218,6 +218,11 @@ func (stg *Stage) ToFile(path string) error {
 	errPrefix := "writing stage " + path
 	// TODO: If we stop relying on the project-wide lock file, this should be
 	// flocked.
+	// If the Stage file is a symbolic link, write the file it points to (as
+	// os.Create would) instead of replacing the link with a regular file.
+	if resolved, err := filepath.EvalSymlinks(path); err == nil {
+		path = resolved
+	}
 	tempPath := path + ".tmp"
 	stageFile, err := os.Create(tempPath)
 	if err != nil {
